@@ -252,6 +252,19 @@ Example C02_for_reentered :
   next_step [running; stale] 50 None (fun _ => enc 20000) = Ok ([running; stale], (0, enc 20001), false).
 Proof. vm_compute. reflexivity. Qed.
 
+(* NEXT and the variable store, for every FOR stack, NEXT position, named variable and store: when NEXT succeeds
+   exactly the counter of the loop it iterates changes (to the exact sum, C02_for_running_loop); when it raises
+   (Overflow, NEXT without FOR) NO variable changes - in particular the counter is not left holding a wrapped sum.
+   `next_exec` takes the counter after an error from the regenerated exit-buffer reading of Integer.iadd. *)
+Theorem C02_for_error_keeps_counter : forall st pos vname store,
+  (forall v, buf_ok (store v)) -> (forall q, In q st -> buf_ok (f_step q) /\ buf_ok (f_stop q)) ->
+  match snd (next_exec st pos vname store) with
+  | Ok (_, (v, c), _) => forall w, fst (next_exec st pos vname store) w = if w =? v then c else store w
+  | _ => forall w, fst (next_exec st pos vname store) w = store w
+  end.
+Proof. exact next_exec_store. Qed.
+Print Assumptions C02_for_error_keeps_counter.
+
 (* ---- non-vacuity: the boundary cases ---- *)
 Example C02_nonvacuous :
   in16 (-32768) /\ in16 (-1) /\ in16 32767 /\
